@@ -68,12 +68,27 @@ def main():
             allowed = payload.get("raises", {})
             name = type(exc).__name__
             ok = name in allowed
-            out = {"violated": not ok, "exception": f"{name}: {exc}",
+            why = None
+            if ok and isinstance(allowed[name], str) and allowed[name] not in ("any",):
+                # the contract allows this exception only under its stated condition
+                try:
+                    ok = bool(eval(allowed[name], env))
+                    if not ok:
+                        why = f"{name} raised although its condition is false: {allowed[name]}"
+                except Exception as ex:
+                    why = f"raise condition not evaluable natively ({type(ex).__name__}: {ex})"
+            out = {"violated": not ok, "exception": f"{name}: {exc}", "why": why,
                    "input": {k: v for k, v in payload["bindings"].items()}}
             print(json.dumps(out, default=str))
             return
         env["result"] = result
         failed = []
+        for name, cond in payload.get("raises_iff", {}).items():
+            try:
+                if eval(cond, env):
+                    failed.append(f"no {name} although: {cond}")
+            except Exception:
+                pass
         for e_ in payload.get("ensures", []):
             try:
                 if not eval(e_, env):
